@@ -4,6 +4,7 @@
 (* probe number, multiplicity of the scenario's elements, planning problems present, an id of    *)
 (* the date-stripped bytes, read-back equals the scenario) and compared with F(writer, kind).    *)
 EXTENDS Writers, Json, IOUtils
+Range(q) == {q[i] : i \in DOMAIN q}
 Traces == ndJsonDeserialize(IOEnv.TRACE_FILE)
 
 VARIABLES tid, l, writers, files, first, err
@@ -21,7 +22,7 @@ Clause(e) ==
             ELSE IF e.fmt # x.fmt THEN "C15.Format"
             ELSE IF e.copies # x.copies THEN "C15.NoAccumulation"
             ELSE IF e.pp # x.pp THEN "C15.Content/planning-problems"
-            ELSE IF e.digits # x.digits THEN "C15.OwnPrecision"
+            ELSE IF x.fmt = "xml" /\ (e.nprobes < 8 \/ Range(e.digits) # {x.digits}) THEN "C15.OwnPrecision"   \* every probe number, wherever it is written
             ELSE IF k \in DOMAIN first /\ first[k] # e.cid THEN "C15.Deterministic"
             ELSE IF e.readback # 1 THEN "C15.ReadBack"
             ELSE ""
